@@ -160,10 +160,12 @@ theorem derives_good {g : G} {p : P} {sk : Sk} {inp : List Nat} {x : Res} (h : D
   | _ => intro v r hx; cases hx
 
 theorem constTV_hasTy {defs : Nat → Ty} {c : Val} {tv : TVal} {t : Ty} (h : constTV c = some (tv, t)) : HasTy defs tv t := by
-  cases c <;> simp [constTV] at h <;> obtain ⟨rfl, rfl⟩ := h
-  · exact .unit
-  · exact .ch _
-  · exact .int _
+  cases c <;> simp [constTV] at h
+  · obtain ⟨rfl, rfl⟩ := h; exact .unit
+  · obtain ⟨rfl, rfl⟩ := h; exact .ch _
+  · obtain ⟨rfl, rfl⟩ := h; exact .int _
+  · obtain ⟨rfl, rfl⟩ := h; exact .str _
+  · obtain ⟨cs, _, rfl, rfl⟩ := h; exact .str _
 
 /-- the tail of a `separator` / `list` value: one more element in front of an already flattened vector -/
 theorem vec_cons_flat {E : TEnv} {g : G} {a : P} {ta : Ty} {v vs : Val} {n1 n2 : Nat} {x tv2 : TVal}
